@@ -220,6 +220,8 @@ def edge_texts():
     out = []
     for t in G.LAST_LINE_CASES + G.FIRST_LINE_CASES:
         out += [t, t + '\n', 'intro\n\n' + t]
+    for t in G.READING_SIDE_CASES:
+        out += [t, t + '\n']
     out += G.context_texts()
     return [t for t in out if CW.in_domain(t)]
 
@@ -227,8 +229,14 @@ def edge_texts():
 def corpus_scenarios(corp, tier='quick'):
     """Systematic part: every corpus text (and the size-threshold texts) x one renderer (rotating), single-file, all channels."""
     out = []
-    for i, t in enumerate(list(corp) + edge_texts() + G.big_texts(corp, tier)):
-        rid = W.BUNDLED_IDS[i % len(W.BUNDLED_IDS)]
+    edge = edge_texts()
+    # corpus and size-threshold texts: one renderer each (rotating); edge texts: the two most line-sensitive renderers
+    # (Markdown round trip, AST with line numbers) and a rotating third
+    plan = [(t, None) for t in list(corp) + G.big_texts(corp, tier)]
+    for t in edge:
+        plan += [(t, 'Markdown'), (t, 'Ast'), (t, None)]
+    for i, (t, fixed) in enumerate(plan):
+        rid = fixed or W.BUNDLED_IDS[i % len(W.BUNDLED_IDS)]
         out.append({'R': rid, 'texts': [t], 'names': ['f0.md'], 'fault': None, 'seed': i, 'batch': 'corpus', 'index': i,
                     'knobs': {'bufsize': [4, 16, 8192][i % 3], 'read_chunk': [1, 3, 8192][i % 3], 'write_chunk': [1, 5, 8192][(i // 3) % 3],
                               'out_bufsize': [1, 64, 8192][(i // 9) % 3], 'locale': G.LOCALES[i % 4], 'stdout_encoding': G.STDOUT_ENCODINGS[i % 5],
